@@ -118,7 +118,7 @@ def filter_config(spec):
 
 
 class Pipeline:
-    def __init__(self, specs, seed=0, delay_ms=(0, 0), prop_exit='all', obey_exit='all', pub_hwm=20, sub_join_ms=(0, 0), bandwidth_mbps=None):
+    def __init__(self, specs, seed=0, delay_ms=(0, 0), prop_exit='all', obey_exit='all', pub_hwm=None, sub_join_ms=(0, 0), bandwidth_mbps=None):
         self.specs = {s['id']: s for s in specs}
         self.world = simnet.NetWorld(seed=seed, delay_ms=delay_ms, pub_hwm=pub_hwm, sub_join_ms=sub_join_ms, bandwidth_mbps=bandwidth_mbps)
         self.rec = Recorder(self.world)
